@@ -78,28 +78,48 @@ def _null_columns(ctx):
     ctx.require("R10.null", n, 1, "INSERTs into tables whose columns the sweep computes with")
 
 
-def _orphans(ctx):
+def _orphans(ctx, rule="R10.orphan", text=None):
     """messages (which have no declared foreign key) are found by the sweep only
     through their mailbox row: they must go in the transaction that deletes it"""
     from . import c01
     from ..report import Ctx
     sub = Ctx(ctx.model, "C01", ctx.tier)
     c01.run(sub)
-    ctx.rule("R10.orphan", "message rows are deleted in the transaction that deletes their "
+    ctx.rule(rule, text or "message rows are deleted in the transaction that deletes their "
              "mailbox row (same rule instances as R01.codel): a crash between two "
              "transactions would leave rows no sweep finds")
     n = 0
     for o in sub.obligations:
         if o.rule == "R01.codel":
             n += 1
-            ctx.ob("R10.orphan", o.construct, o.ok, o.site, o.detail)
-    ctx.require("R10.orphan", n, 1, "mailbox deletions")
+            ctx.ob(rule, o.construct, o.ok, o.site, o.detail)
+    ctx.require(rule, n, 1, "mailbox deletions")
+
+
+def _sweep_reaches_all(ctx):
+    """after a crash nobody may return: what is left is emptied only if the
+    sweep finds its work in the database, not in objects that a restart lost
+    (same rule instances as R13.apps)"""
+    from . import c13
+    from ..report import Ctx
+    sub = Ctx(ctx.model, "C13", ctx.tier)
+    c13.run(sub)
+    ctx.rule("R10.apps", "the sweep enumerates the applications from the database and visits "
+             "every one of them (same rule instances as R13.apps): "
+             "the store left by a crash is emptied although no client returns")
+    n = 0
+    for o in sub.obligations:
+        if o.rule == "R13.apps":
+            n += 1
+            ctx.ob("R10.apps", o.construct, o.ok, o.site, o.detail)
+    ctx.require("R10.apps", n, 2, "app loops of the sweep")
 
 
 def run(ctx):
     model = ctx.model
     _null_columns(ctx)
     _orphans(ctx)
+    _sweep_reaches_all(ctx)
     shared.r_durable(ctx, "R10.durable", ("chan", "usage"),
                      "an acknowledged command whose effect a crash loses is not re-sent by the client: the stored state diverges from the crash-free one")
     ctx.rule("R10.fk", "every transaction is FK-closed (E3 insert side and delete side)")
